@@ -22,7 +22,8 @@ HARNESSES = [
       "56-bit x finite double^2"),
     H("c04_cmp_usize", 20, "Number vs usize", "56-bit x any usize"),
 ]
-ENCODED = ["<Number as Ord>::cmp", "<Number as PartialEq>::eq", "<Number as PartialOrd>::partial_cmp",
+ENCODED = ["all 16+16 arms of Number::cmp / Number::eq and the 4+4 arms of the usize variants "
+           "(engine M: domain, lossless conversion, operand order)", "<Number as Ord>::cmp", "<Number as PartialEq>::eq", "<Number as PartialOrd>::partial_cmp",
            "<Number as PartialOrd<usize>>::partial_cmp", "<Number as PartialEq<usize>>::eq"]
 ASSUME = ["NaN cannot be produced by evaluation (C02) and is excluded",
           "arms with a bignum or rational side delegate to dashu comparisons (trusted; P18)"]
@@ -31,11 +32,23 @@ OUTSIDE = "dashu's comparisons (Integer/Rational arms); operand fetch"
 
 
 def mpost(results):
-    try:
-        from vlib.mirsmt import c04 as m
-    except ImportError:
-        return {}
-    return m.run()
+    from vlib.mirsmt import c04 as m, numarms
+    from vlib.common import EXIT_VIOLATION, EXIT_INCONCLUSIVE
+    r1 = m.run()
+    r2 = numarms.run(label="C04")
+    out = dict(r1)
+    out["evaluations"] = r1.get("evaluations", 0) + r2.get("evaluations", 0)
+    out["distinct_nontrivial"] = r1.get("distinct_nontrivial", 0) + r2.get("distinct_nontrivial", 0)
+    out["samples"] = r1.get("samples", []) + r2.get("samples", [])
+    for k, v in r2.items():
+        if k.startswith("numarms"):
+            out[k] = v
+    ex = [r.get("exit", 0) for r in (r1, r2)]
+    if EXIT_VIOLATION in ex:
+        out["exit"] = EXIT_VIOLATION
+    elif EXIT_INCONCLUSIVE in ex:
+        out["exit"] = EXIT_INCONCLUSIVE
+    return out
 
 
 def run(tier):
